@@ -4,7 +4,8 @@ import json
 import vlib
 
 ASSUMPTIONS = [
-    "layouts: data centres 1..k with 0..m nodes each (0 = data centre absent), the local node is node 1 of data centre 1; "
+    "layouts: data centres 1..k, each any subset of node indexes 1..m (empty = data centre absent), so updates can replace members without changing sizes; "
+    "the local node is node 1 of data centre 1; "
     "histories: every sequence of membership updates and selections (all 8 levels) up to the length bound, first step an update",
     "each history is replayed on a fresh real selector actor (start_node_selector + DCAwareSelector); outcomes judged by the "
     "postcondition Allowed (count-only: only live members other than the local node, no duplicates, at least Required, exactly n for One/Two/Three)",
@@ -13,14 +14,16 @@ ASSUMPTIONS = [
 ]
 
 TIERS = {
-    "quick": [dict(NumDCs=3, MaxDC1=3, MaxOther=3, MaxLen=3, WithWait=False)],
-    "thorough": [dict(NumDCs=3, MaxDC1=3, MaxOther=3, MaxLen=3, WithWait=False),
-                 dict(NumDCs=4, MaxDC1=4, MaxOther=2, MaxLen=3, WithWait=False),
-                 dict(NumDCs=2, MaxDC1=4, MaxOther=4, MaxLen=4, WithWait=True),
-                 dict(NumDCs=3, MaxDC1=2, MaxOther=2, MaxLen=4, WithWait=True)],
+    "quick": [dict(NumDCs=2, MaxIdx=3, MaxLen=3, WithWait=False),
+              dict(NumDCs=3, MaxIdx=2, MaxLen=3, WithWait=False)],
+    "thorough": [dict(NumDCs=2, MaxIdx=3, MaxLen=3, WithWait=False),
+                 dict(NumDCs=3, MaxIdx=2, MaxLen=3, WithWait=False),
+                 dict(NumDCs=2, MaxIdx=4, MaxLen=3, WithWait=False),
+                 dict(NumDCs=2, MaxIdx=2, MaxLen=4, WithWait=True),
+                 dict(NumDCs=1, MaxIdx=4, MaxLen=4, WithWait=True)],
 }
-SIM = {"quick": dict(NumDCs=4, MaxDC1=4, MaxOther=4, MaxLen=6, WithWait=False, num=3000),
-       "thorough": dict(NumDCs=4, MaxDC1=4, MaxOther=4, MaxLen=8, WithWait=False, num=40000)}
+SIM = {"quick": dict(NumDCs=3, MaxIdx=3, MaxLen=6, WithWait=False, num=1500),
+       "thorough": dict(NumDCs=4, MaxIdx=3, MaxLen=8, WithWait=False, num=10000)}
 
 
 def run(ctx):
